@@ -1,13 +1,10 @@
 //! C04 — no crash or hang on any input.
 use crate::cli::{BwRun, Out, Sandbox};
 use crate::engine::{Probe, Run, Verdict, pick_idx};
-use crate::inproc::{self, Outcome};
 use crate::langs::{self, SUFFIXES};
 use proptest::prelude::*;
 use serde::{Deserialize, Serialize};
 use serde_json::json;
-use std::sync::Mutex;
-use std::time::Instant;
 
 pub const TOKENS: &[&str] = &[
     "//", "///", "//!", "/*", "*/", "/**", "*", "#", "#!", "--", "<!--", "-->", "--!>", "<!-->", "<!--->", "[//]:", "[//]: #", "[//]: # (", ")", "(", "\"", "'", "`", "```", "\"\"\"", "r#\"", "\"#",
@@ -49,22 +46,46 @@ fn degenerate(text: &str) -> bool {
         || text.contains("<!-->")
 }
 
-static IN_FLIGHT: Mutex<Vec<Option<(Instant, String, String)>>> = Mutex::new(Vec::new());
-
-fn slot_set(file: &str, text: &str) -> usize {
-    let mut g = IN_FLIGHT.lock().unwrap();
-    let v = Some((Instant::now(), file.to_string(), text.to_string()));
-    if let Some(i) = g.iter().position(Option::is_none) {
-        g[i] = v;
-        i
-    } else {
-        g.push(v);
-        g.len() - 1
-    }
+thread_local! {
+    static FAST: std::cell::Cell<bool> = const { std::cell::Cell::new(false) };
 }
 
-fn slot_clear(i: usize) {
-    IN_FLIGHT.lock().unwrap()[i] = None;
+/// Does the language's own grammar (tree-sitter alone, no blockwatch code) terminate on this text?
+/// Run in a child process so that it can be killed.
+fn grammar_terminates(suffix: &str, text: &str) -> Option<bool> {
+    let lang = langs::lang_of_suffix(suffix);
+    langs::ts_language(lang.id)?;
+    let dir = Sandbox::new();
+    dir.write("probe.txt", text.as_bytes());
+    let exe = std::env::current_exe().ok()?;
+    let mut c = std::process::Command::new(exe);
+    c.arg("__tsparse").arg(lang.id).arg(dir.root.join("probe.txt"));
+    let o = crate::cli::run_cmd(c, None, if FAST.with(|f| f.get()) { 5 } else { 20 });
+    Some(!o.timed_out)
+}
+
+/// Hang triage: 3 CLI runs with a 30 s limit; when all exceed it, ask the grammar alone.
+fn hang_verdict(suffix: &str, file: &str, text: &str, probe: &Probe) -> Verdict {
+    let sb = Sandbox::with_fake_git();
+    sb.write(file, text.as_bytes());
+    let fast = FAST.with(|f| f.get());
+    let mut r = BwRun::scan(&[file]);
+    r.timeout_s = Some(if fast { 10 } else { 30 });
+    let all = (0..if fast { 1 } else { 3 }).all(|_| {
+        probe.child();
+        sb.bw(&r).timed_out
+    });
+    if !all {
+        return Verdict::Unspecified("slow in-process run that the CLI does not reproduce (inconclusive)");
+    }
+    if grammar_terminates(suffix, text) == Some(false) {
+        probe.class("hang-inside-tree-sitter-grammar");
+        if crate::known::listed("K6") {
+            return Verdict::Known("K6");
+        }
+        return Verdict::Fail(format!("C04 [{suffix}]: blockwatch does not terminate (3 x 30 s on the CLI) on a {}-byte input; the language's tree-sitter grammar alone does not terminate on it either\n--- {file} ---\n{text:?}", text.len()));
+    }
+    Verdict::Fail(format!("C04 [{suffix}]: blockwatch does not terminate (3 x 30 s on the CLI) on a {}-byte input although the grammar alone parses it\n--- {file} ---\n{text:?}", text.len()))
 }
 
 /// Confirms an in-process failure on the real CLI in scan, list and diff mode.
@@ -109,15 +130,15 @@ fn in_process_all_suffixes(text: &str, suffixes: &[usize], probe: &Probe) -> Ver
     for &si in suffixes {
         let (suffix, _) = SUFFIXES[si];
         let file = langs::file_name("soup", suffix);
-        let slot = slot_set(&file, text);
-        let r = inproc::pipeline(&[(file.clone(), text.to_string())], None, true);
-        slot_clear(slot);
+        let req = crate::pool::Req { files: vec![(file.clone(), text.to_string())], validate: true };
+        let r = crate::pool::call(&req, std::time::Duration::from_secs(if FAST.with(|f| f.get()) { 5 } else { 20 }));
         probe.evals(1);
         match r {
-            Outcome::Ok { .. } => probe.class("in-process:report"),
-            Outcome::Err(_) => probe.class("in-process:readable-error"),
-            Outcome::Panic(msg) => {
+            Ok(resp) if resp.outcome == "ok" => probe.class("in-process:report"),
+            Ok(resp) if resp.outcome == "err" => probe.class("in-process:readable-error"),
+            Ok(resp) => {
                 probe.class("in-process:panic");
+                let msg = resp.msg;
                 return match confirm_on_cli(&file, text, probe) {
                     Some((mode, o)) => Verdict::Fail(format!(
                         "C04 [{suffix}]: panic in-process ({msg}) and on the CLI in {mode} mode: {}\n--- {file} ({} bytes) ---\n{:?}\n--- observed ---\n{}",
@@ -127,6 +148,21 @@ fn in_process_all_suffixes(text: &str, suffixes: &[usize], probe: &Probe) -> Ver
                         o.brief()
                     )),
                     None => Verdict::Fail(format!("C04 [{suffix}]: HARNESS DISCREPANCY: in-process panic ({msg}) that the CLI does not show\n--- {file} ---\n{text:?}")),
+                };
+            }
+            Err(crate::pool::CallError::Timeout) => {
+                probe.class("in-process:exceeded-20s");
+                match hang_verdict(suffix, &file, text, probe) {
+                    Verdict::Unspecified(_) => continue,
+                    v => return v,
+                }
+            }
+            Err(crate::pool::CallError::Died) => {
+                // the worker process died (abort / stack overflow / signal): confirm on the CLI
+                probe.class("in-process:worker-died");
+                return match confirm_on_cli(&file, text, probe) {
+                    Some((mode, o)) => Verdict::Fail(format!("C04 [{suffix}]: the library aborted in-process and the CLI fails in {mode} mode: {}\n--- {file} ---\n{text:?}\n{}", bad_exit(&o).unwrap(), o.brief())),
+                    None => Verdict::Fail(format!("C04 [{suffix}]: HARNESS DISCREPANCY: worker process died on an input the CLI handles\n--- {file} ---\n{text:?}")),
                 };
             }
         }
@@ -316,6 +352,14 @@ pub fn check_cli(c: &CliCase, probe: &Probe) -> Verdict {
             // hang rule: reproduced 3/3 alone, otherwise inconclusive
             let again = (0..2).all(|_| sb.bw(&r).timed_out);
             if again {
+                for (sfx, txt) in [(s1, &new), (s2, &new)] {
+                    if grammar_terminates(sfx, txt) == Some(false) {
+                        probe.class("hang-inside-tree-sitter-grammar");
+                        if crate::known::listed("K6") {
+                            return Verdict::Known("K6");
+                        }
+                    }
+                }
                 return Verdict::Fail(show("does not terminate (3/3 runs exceeded 30 s on an input of a few KiB)", mode, &o));
             }
             return Verdict::Unspecified("one slow run that did not reproduce (inconclusive)");
@@ -343,35 +387,32 @@ fn ops_strategy(max: usize) -> BoxedStrategy<Vec<MutOp>> {
     proptest::collection::vec(op, 1..max).boxed()
 }
 
+#[derive(Clone, Debug, Serialize, Deserialize)]
+pub struct RawInput {
+    pub suffix: String,
+    pub text: String,
+    /// shortened limits (sentinel of a known non-termination: 5 s in-process, one 10 s CLI run, 5 s grammar probe)
+    #[serde(default)]
+    pub fast: bool,
+}
+
+/// Sentinel / regression form: one literal input under one suffix.
+pub fn check_raw(r: &RawInput, probe: &Probe) -> Verdict {
+    let Some(si) = SUFFIXES.iter().position(|(s, _)| *s == r.suffix) else { return Verdict::Unspecified("unknown suffix") };
+    FAST.with(|f| f.set(r.fast));
+    let v = in_process_all_suffixes(&r.text, &[si], probe);
+    FAST.with(|f| f.set(false));
+    v
+}
+
 pub fn run(run: &mut Run) {
+    run.sentinel("K6", "raw", check_raw);
+    run.enumerate("raw", Vec::<RawInput>::new(), None, check_raw);
     run.rule = "random, three parts. soup: 1..40 tokens drawn from 130 fragments (comment delimiters of every language, tag fragments, half-written tags, quotes, brackets, newlines/CR/CRLF, NBSP, zero-width, emoji, combining marks, BOM, here-doc/PHP/Markdown/XML openers, small valid statements), glued or space-separated, run in-process (parse + sync validators) under all 39 suffixes. mutants: delete/duplicate/insert-token/truncate/move-span mutations of valid files (golden file of every suffix x comment form, and the repository's own sources, tests, README, capped at 8 KiB) under their own suffix in-process. cli: a mutant committed and a further mutation in the work tree, real `git diff -U0..3` piped to `blockwatch` and `blockwatch list`, plus scan and list, under the file's suffix and a second random suffix. Every in-process panic is re-run on the CLI before it is reported. Evaluations count (input, suffix, mode) runs. Non-trivial input = unbalanced comment delimiters, a half-written tag, a Markdown definition opener or a degenerate `<!-->`.".into();
     run.assumptions = vec![
         "inputs are at most 16 KiB (edited lines are short: the character diff of one replaced line is quadratic, slowness on very long lines is not flagged)".into(),
         "only git-made diffs are piped in".into(),
     ];
-    inproc::quiet_panics();
-    // watchdog for in-process hangs: an input stuck for 60 s is re-run on the CLI (30 s limit, three times)
-    std::thread::spawn(|| loop {
-        std::thread::sleep(std::time::Duration::from_secs(2));
-        let stuck = IN_FLIGHT.lock().unwrap().iter().flatten().find(|(t, _, _)| t.elapsed().as_secs() > 60).cloned();
-        if let Some((_, file, text)) = stuck {
-            let sb = Sandbox::with_fake_git();
-            sb.write(&file, text.as_bytes());
-            let mut r = BwRun::scan(&[&file]);
-            r.timeout_s = Some(30);
-            let all = (0..3).all(|_| sb.bw(&r).timed_out);
-            let dir = crate::cli::verif_dir().join("replays/C04");
-            let _ = std::fs::create_dir_all(&dir);
-            let p = dir.join("hang.json");
-            let _ = std::fs::write(&p, json!({"property": "C04", "part": "hang", "file": file, "text": text}).to_string());
-            if all {
-                println!("C04: input does not terminate in-process (60 s) nor on the CLI (3 x 30 s)\nVIOLATION property=C04 replay={}", p.display());
-                std::process::exit(1);
-            }
-            println!("INCONCLUSIVE: in-process run exceeded 60 s but the CLI terminates; input saved to {}", p.display());
-            std::process::exit(2);
-        }
-    });
     let soup = || (proptest::collection::vec(any::<u16>(), 1..40), any::<bool>()).prop_map(|(tokens, spaced)| Soup { tokens, spaced }).boxed();
     let mutant = || (any::<u16>(), ops_strategy(6)).prop_map(|(seed, ops)| Mutant { seed, ops }).boxed();
     let cli = || (any::<u16>(), ops_strategy(4), ops_strategy(4), any::<u16>()).prop_map(|(seed, ops, second, other_suffix)| CliCase { mutant: Mutant { seed, ops }, second, other_suffix }).boxed();
